@@ -96,5 +96,6 @@ def run(ctx, rule="CONTROL"):
             "iterator_reuse": ["iterator-reuse"], "iterator_once": [], "or_default": ["or-default"], "none_default": [],
             "unused_loop_variable": ["unused-loop-variable"], "where_tuple": ["where-tuple"], "where_array": [],
             "inplace_view": ["inplace-foreign"], "inplace_copy": [], "inplace_param": ["inplace-foreign"],
-            "tree_reuse": ["tree-reuse"], "tree_copy": [], "set_order": ["set-order"], "sorted_set": []}
+            "tree_reuse": ["tree-reuse"], "tree_copy": [], "set_order": ["set-order"], "sorted_set": [],
+            "or_falsy_literal": [], "repeat_loop": [], "set_sum": [], "_fill_buffer": []}
     ctx.ob(rule, "py-slips", got == want, fx, "python slip lints on the fixture: %s" % got)
